@@ -115,7 +115,7 @@ func TestVerif_C10_exec(t *testing.T) {
 	defer func() { time.Local = savedLocal }()
 	base := time.Date(2024, 11, 5, 12, 0, 0, 0, time.UTC)
 	classes := []string{"plain", "plain", "plain", "f17a-executed-disagree", "f17b-two-msgs-one-seq", "f17c-two-nonces", "f25-utc-spelling", "equal-timestamps",
-		"conflict-root", "conflict-end", "conflict-three"}
+		"conflict-root", "conflict-end", "conflict-three", "foreign-chain-key"}
 	vets := map[int][2]*vC10Vet{}
 	for i := 0; i < n; i++ {
 		cls := classes[i%len(classes)]
@@ -157,7 +157,7 @@ func TestVerif_C10_exec(t *testing.T) {
 		switch cls {
 		case "f17a-executed-disagree", "f25-utc-spelling", "equal-timestamps", "conflict-root", "conflict-end", "conflict-three":
 			state = exectypes.GetCommitReports
-		case "f17b-two-msgs-one-seq":
+		case "f17b-two-msgs-one-seq", "foreign-chain-key":
 			state = exectypes.GetMessages
 		case "f17c-two-nonces":
 			state = exectypes.Filter
@@ -221,6 +221,15 @@ func TestVerif_C10_exec(t *testing.T) {
 							obs[o].TokenData[ch][m.Header.SequenceNumber] = exectypes.NewMessageTokenData()
 						}
 					}
+				}
+				if cls == "foreign-chain-key" {
+					// a message whose HEADER names source chain A filed under chain key B at A's sequence number, by every
+					// oracle, next to the honest message under key A: two per-chain validators hold a valid item with the
+					// same header coordinates (seeded change C10-6 filed merged messages by header source chain)
+					a, b := sources[0], sources[1]
+					n0 := truth[a][0].msgs[0].Header.SequenceNumber
+					obs[o].Messages[b][n0] = vC10Msg(a, uint64(n0), 2, 7, 1)
+					obs[o].TokenData[b][n0] = exectypes.NewMessageTokenData()
 				}
 				if r.Bool() {
 					obs[o].CostlyMessages = []cciptypes.Bytes32{truth[sources[0]][0].msgs[0].Header.MessageID}
